@@ -132,6 +132,29 @@ func verifHarnessC11Scaled() {
 		readAll(df, "C11.appended")
 		verifReach("reopened")
 	}
+	if verifParam("resumeread") == 1 {
+		// a sequential reader that has consumed everything is RESUMED after another append (readers that follow a
+		// growing file): it must return the new record at the position the writer reported
+		r := df.NewReader()
+		for range poss {
+			_, _, err := r.NextLogRecord()
+			verifAssert(err == nil, "C11.resume-read")
+		}
+		_, _, err := r.NextLogRecord()
+		verifAssert(err == io.EOF, "C11.resume-eof")
+		vl := verifInt("vlen4")
+		verifAssume(vl >= 0)
+		verifAssume(vl <= maxLen)
+		k4, v4 := verifBytes("k4", 1), verifBytes("v4", vl)
+		p4, err := df.WriteLogRecord(&LogRecord{Key: k4, Value: v4, Type: LogRecordNormal}, hdr)
+		verifAssert(err == nil, "C11.resume-append")
+		rec, pos, err := r.NextLogRecord()
+		verifAssert(err == nil, "C11.resumed-seq-err")
+		verifAssert(*pos == *p4, "C11.resumed-seq-pos")
+		verifAssert(len(rec.Value) == vl && verifBytesEq(rec.Value, v4), "C11.resumed-seq-bytes")
+		keys, vals, poss = append(keys, k4), append(vals, v4), append(poss, p4)
+		verifReach("reader-resumed-after-append")
+	}
 	if verifParam("truncread") == 1 && len(poss) >= 2 {
 		// a sequential reader that is kept while the file is cut back to its position and appended to again
 		// (what recovery does with a torn tail) must see the NEW bytes, at the positions the writer reports
